@@ -24,17 +24,17 @@ chk("C14", "proof",
     "trusted: moves/copies/Clone and Option::unwrap_or* on Some(v) are identities",
     "provenance (identity-flow) rule over THIR + field-write census", "DESIGN.md 5/C14")
 chk("C20", "proof",
-    "Compositionality by structural induction; premises decided: every use of a child in every eval arm is the argument of the recursive eval call (lists: only measured/iterated, elements passed to eval), no arm pattern looks inside a child, eval builds no tree, round brackets are the identity wrapper, previous_token is never read, token dispatch is unguarded. Determinism is C16. The parser is parametric in the sub-trees it combines (no parser function matches on or compares a Node).",
+    "Compositionality by structural induction; premises decided by a typed flow rule over the evaluator and all its helpers and closures: a Node-typed value (through &/Box/Arc) is only moved, borrowed, cloned, bound or handed to the tree walk or a crate-local helper, never compared, formatted, destructured outside the walk's flat top-level arms or passed elsewhere; collections of Nodes never reach ==/contains/sort/Debug; eval builds no tree, round brackets are the identity wrapper, previous_token is never read, token dispatch is unguarded. Determinism is C16. The parser is parametric in the sub-trees it combines (no parser function matches on or compares a Node).",
     "trusted: the induction argument in DESIGN.md; determinism from C16",
-    "provenance rule over every child use in the THIR of eval + read census", "DESIGN.md 5/C20")
+    "typed flow (provenance) rule over every Node-typed expression and pattern in the THIR of the evaluator side + read census", "DESIGN.md 5/C20")
 chk("C01", "proof",
     "Sound over-approximation: every MIR panic edge (Assert terminators: overflow, division/remainder by zero, bounds; calls classified may-panic: unwrap/expect/index/panicking Decimal operators and maths/integer pow-abs/...) in every function reachable from the five entry points is enumerated in both overflow-check configurations; an edge is discharged only by a constant condition or by a recognised THIR schema whose premises are re-established on every run (static arity, non-empty aggregate, seeded fold, total-order comparator, guarded division, bounded accumulator/counter, literal call sites). Sort comparators must be total. Stack: frame sizes from -Zemit-stack-sizes x recursion-depth bound from C02 fit the 8 MiB main stack (dev and release); thorough tier repeats the census in all 31 feature subsets x 2.",
     "trusted: callee classification table (std, rust_decimal 1.43, num-complex 0.4.6), safe-Rust UB checks, allocation failure out of scope; known finding: dev-profile bound exceeds a 2 MiB thread stack",
     "panic-edge census over MIR + call-graph reachability + schema-based discharge on typed THIR; static stack bound from emitted frame sizes", "DESIGN.md 5/C01")
 chk("C02", "proof",
-    "Every loop construct of every reachable function is classified L1 input-consuming / L2 token-consuming (must-consume fixpoint over the parser) / L3 constant-bounded with an extracted upper-bound provenance (literal, min/clamp, dominating guard, guarded match, literal call sites) / L4 Euclid form, and cross-checked against the natural loops of the MIR; parser recursion: the graph of calls made before any token is consumed is acyclic; eval recursion: arguments are strict sub-terms; only those SCCs exist; the budget inequality c1+2+K_max <= 256 is computed from the extracted constants.",
+    "Every loop construct of every reachable function is classified L1 input-consuming / L2 token-consuming (must-consume fixpoint over the parser) / L3 constant-bounded with an extracted upper-bound provenance (literal, min/clamp, dominating guard, guarded match, literal call sites) / L4 Euclid form, and cross-checked against the natural loops of the MIR; parser recursion: the graph of calls made before any token is consumed is acyclic; eval recursion: typed rule (a Node is only passed on, never built or inspected; the walk uses its own argument only as the scrutinee of its top-level match) so every recursive call is on a strict sub-term; linear use: along every path each child is evaluated at most once and an argument list yields its elements at most once; only those SCCs exist; the budget inequality c1+2+K_max <= 256 is computed from the extracted constants.",
     "trusted: finiteness of std iterators, Lame's bound, derived Clone/Drop recursion (not a counted step), loops inside dependencies",
-    "loop classification with bound provenance over typed THIR, MIR natural-loop cross-check, call-graph SCC and progress-edge analysis", "DESIGN.md 5/C02")
+    "loop classification with bound provenance over typed THIR, MIR natural-loop cross-check, call-graph SCC and progress-edge analysis, typed flow rules for recursion and linear use of children", "DESIGN.md 5/C02")
 chk("C05", "proof",
     "Structural induction over the tree; the premise is decided per node kind: chain surface -> token -> node -> eval arm equals Ok(op(children)) with the IEEE/libm operation of that meaning (operand order included), pi/e by bit pattern, and no arithmetic arm contains an Err constructor or a finiteness test.",
     "trusted: rustc lowering of f64 operators to IEEE operations, std f64 methods, correct rounding of str::parse::<f64> (C19)",
